@@ -13,6 +13,8 @@ set -u
 ROOT="$(cd "$(dirname "$0")/.." && pwd)"
 ID="$1"
 export CARGO_NET_OFFLINE=true VERIF_ROOT="$ROOT"
+# strategies may leave out families that only make sense under weighted generation (see C13): target and re-decision agree
+export VERIF_BYTE_LEVEL=1
 SEED="${VERIF_SEED:-1}"
 WORKERS="${VERIF_FUZZ_WORKERS:-16}"
 ENGINE="$ROOT/engine/target/release/verif-engine"
